@@ -42,7 +42,7 @@ def shards(tier, seed):
 
 
 def min_required(tier):
-    return {"bystander_checks": 2000, "creating_ops_checked": 5000, "tuples": 250}
+    return {"bystander_checks": 2000, "creating_ops_checked": 5000, "tuples": 200}
 
 
 class TracedWorld(World):
